@@ -512,7 +512,7 @@ func c14Configs(tier string) []c14Cfg {
 
 func c14Depth(tier string) int {
 	if tier == "thorough" {
-		return 6
+		return 5
 	}
 	return 4
 }
